@@ -61,6 +61,11 @@ fn configs(tier: Tier) -> Vec<Cfg> {
     k7.ingest_block = Some(64);
     k7.shard_min = Some(600);
     v.push(k7);
+    // production constants: nothing overridden but the (default) target itself
+    let mut k0 = base("K0-production");
+    k0.target = 65536;
+    k0.min_cpr = None;
+    v.push(k0);
     if tier == Tier::Thorough {
         let mut k8 = base("K8-chunks4-defrag-n3");
         k8.max_xorb_chunks = Some(4);
@@ -96,12 +101,17 @@ fn plan(tier: Tier) -> Vec<(Cfg, &'static str)> {
             p.push((by("K1"), "F6c"));
             p.push((by("K1"), "FS"));
             p.push((by("K2"), "F4"));
+            p.push((by("K0"), "F7"));
             for k in ["K1", "K3"] {
                 p.push((by(k), "F8"));
             }
         },
         Tier::Thorough => {
+            p.push((by("K0"), "F7"));
             for c in &cs {
+                if c.target == 65536 {
+                    continue;
+                }
                 for f in ["F1", "F2", "F3", "F4", "F5", "F6", "F6c", "FS", "F8"] {
                     if c.target == 1024 && (f == "F2" || f == "F3" || f == "F4" || f == "F8") {
                         continue;
@@ -119,7 +129,7 @@ fn expand(scn: Vec<Scenario>, atoms: &Atoms) -> Vec<Scenario> {
     for s in scn {
         if s.family == "F6c" {
             let f = &s.sessions[0].files[0];
-            let len = atoms.build(&f.word, f.tail).len();
+            let len = f.bytes(atoms).len();
             for cut in 0..=len {
                 let mut t = s.clone();
                 t.sessions[0].files[0].feed = Feed::Cut(cut);
@@ -228,7 +238,7 @@ fn main() {
         for (cfg, fam) in plan(args.tier) {
             let scn = expand(family(fam, args.tier), &probe_atoms);
             let sessions: usize = scn.iter().map(|s| s.sessions.len()).sum();
-            let per = if downloads { 60 } else { 150 };
+            let per = if fam == "F7" { 2 } else if downloads { 60 } else { 150 };
             let nparts = ((sessions + per - 1) / per).max(1);
             for part in 0..nparts {
                 let spec = json!({"cfg": cfg.to_json(), "family": fam, "tier": args.tier.name(), "part": part, "nparts": nparts, "downloads": downloads});
